@@ -100,6 +100,18 @@ def _structural(kind):
     if kind == "unused_tensor":
         sg["tensors"].append(dict(name="unused", shape=[1, 3], dtype="int8", quant=dict(scale=[0.1], zp=[0]), data=None))
         sg["tensors"].append(dict(name="unused_const", shape=[4], dtype="int8", quant=dict(scale=[0.1], zp=[0]), data=np.arange(4, dtype=np.int8)))
+    elif kind in ("unused_input_first", "unused_input_last", "dead_op_input", "const_input"):
+        # interface entries that no surviving operator needs: an input nobody reads (before / after the real one), an input read only by an
+        # operator whose result is dropped, an input entry that names a constant
+        if kind == "const_input":
+            sg["inputs"] = sg["inputs"] + [sg["ops"][0]["inputs"][1]]
+        else:
+            sg["tensors"].append(dict(name="spare_in", shape=[1, 4, 4, 8], dtype="int8", quant=dict(scale=[0.1], zp=[0]), data=None))
+            extra = len(sg["tensors"]) - 1
+            sg["inputs"] = [extra] + sg["inputs"] if kind == "unused_input_first" else sg["inputs"] + [extra]
+            if kind == "dead_op_input":
+                sg["tensors"].append(dict(name="dropped", shape=[1, 4, 4, 8], dtype="int8", quant=dict(scale=[0.1], zp=[0]), data=None))
+                sg["ops"].append(dict(sg["ops"][1], inputs=[extra], outputs=[len(sg["tensors"]) - 1]))
     elif kind == "dup_inputs":
         sg["inputs"] = sg["inputs"] * 2
     elif kind == "zero_len_buffer":
